@@ -1,7 +1,7 @@
 (** C19 — property theorems.  This file contains nothing but statements closed by [exact]. *)
 From Coq Require Import ZArith QArith.
 From Coq Require Import Qminmax.
-From KV Require Import Base.Outcome Base.Num C19.Model C19.ProofsTime C19.ProofsEasing.
+From KV Require Import Base.IEEE Base.Outcome Base.Num C19.Model C19.ProofsTime C19.ProofsEasing C19.ProofsGuards.
 Local Open Scope Q_scope.
 
 (** Adding a non-negative amount: the fraction stays in [0,1), ticks + fraction grows by
@@ -69,3 +69,24 @@ Theorem mapping_clamps_input :
     ~ in_lo m == in_hi m ->
     map_value powf m x = map_value powf m (clampQ (Qmin (in_lo m) (in_hi m)) (Qmax (in_lo m) (in_hi m)) x).
 Proof. exact map_value_clamps. Qed.
+
+(** The guard [positive_power] is exact (known finding F36): with a power of 0 the easing maps 0 to 1, with a
+    negative power it leaves [0,1] — over Q and, as the implementation computes it, in binary64 (0^-1 = +inf). *)
+Theorem easing_nonpositive_power_refuted :
+  forall powf : Q -> Q -> Q,
+    ease powf (InPowi 0) 0 == 1 /\ ease powf (InPowi (-1)) (1 # 2) == 2 /\
+    ~ shape (ease powf (InPowi 0)) /\ ~ shape (ease powf (InPowi (-1))) /\
+    ~ positive_power (@InPowi Q 0) /\ ~ positive_power (@InPowi Q (-1)).
+Proof. exact easing_nonpositive_power_refuted_l. Qed.
+Theorem easing_nonpositive_power_b64 :
+  forall powf : f64 -> f64 -> f64,
+    bits_of_f64 (ease powf (InPowi 0) (b64 0)) = 0x3FF0000000000000%Z /\
+    bits_of_f64 (ease powf (InPowi (-1)) (b64 0x3FE0000000000000)) = 0x4000000000000000%Z /\
+    bits_of_f64 (ease powf (InPowi (-1)) (b64 0)) = 0x7FF0000000000000%Z.
+Proof. exact easing_nonpositive_power_b64_l. Qed.
+(** The guard [in_lo <> in_hi] of [mapping_clamps_input] is exact (known finding F41): a zero-width input range
+    gives NaN in binary64 (0/0) for finite arguments. *)
+Theorem mapping_zero_width_refuted :
+  forall powf : f64 -> f64 -> f64,
+    (bits_of_f64 (map_value powf zero_width (b64 0x4000000000000000)) < 0)%Z.
+Proof. exact mapping_zero_width_refuted_l. Qed.
